@@ -164,6 +164,8 @@ type caseJ struct {
 	Amount    uint64   `json:"amount"`
 	Ref       string   `json:"reference_verdict"`
 	Impl      string   `json:"implementation_verdict"`
+	// inputs verified, in this order, on ONE transaction object; the last one is judged
+	SharedOrder []int `json:"verify_order_on_one_object,omitempty"`
 }
 
 func flagNames(f refscript.Flags) string {
@@ -193,7 +195,8 @@ func (c *Case) toJ(ref, impl string) caseJ {
 }
 
 // implVerdict runs the code under test on its own decoding of the transaction.
-func implVerdict(c *Case) (ok bool, pan string) {
+// implTx builds the implementation's transaction object through its own decoder.
+func implTx(c *Case) *btc.Tx {
 	raw := c.Tx.Serialize(true)
 	g, n := btc.NewTx(raw)
 	if g == nil || n != len(raw) {
@@ -204,6 +207,11 @@ func implVerdict(c *Case) (ok bool, pan string) {
 	for i := range c.Spent {
 		g.Spent_outputs[i] = &btc.TxOut{Value: c.Spent[i].Value, Pk_script: c.Spent[i].Script}
 	}
+	return g
+}
+
+// implVerifyOn verifies input idx of c's transaction on the given (possibly shared) object.
+func implVerifyOn(g *btc.Tx, c *Case, idx int) (ok bool, pan string) {
 	defer func() {
 		if r := recover(); r != nil {
 			pan = fmt.Sprint(r)
@@ -212,7 +220,12 @@ func implVerdict(c *Case) (ok bool, pan string) {
 			}
 		}
 	}()
-	return script.VerifyTxScript(c.Spent[c.Idx].Script, &script.SigChecker{Tx: g, Idx: c.Idx, Amount: c.Spent[c.Idx].Value}, toImplFlags(c.Flags)), ""
+	return script.VerifyTxScript(c.Spent[idx].Script, &script.SigChecker{Tx: g, Idx: idx, Amount: c.Spent[idx].Value}, toImplFlags(c.Flags)), ""
+}
+
+// implVerdict runs the code under test on a fresh object of its own decoding.
+func implVerdict(c *Case) (ok bool, pan string) {
+	return implVerifyOn(implTx(c), c, c.Idx)
 }
 
 func refVerdict(c *Case) refscript.Result {
@@ -509,7 +522,20 @@ func replay(file string) {
 	done := make(chan struct{})
 	var impl bool
 	var pan string
-	go func() { impl, pan = implVerdict(c); close(done) }()
+	go func() {
+		if len(j.SharedOrder) > 0 {
+			g := implTx(c)
+			for k, idx := range j.SharedOrder {
+				impl, pan = implVerifyOn(g, c, idx)
+				fmt.Fprintf(ev.Out, "  step %d on the shared object: input %d -> %s %s\n", k, idx, verdictName(impl), pan)
+			}
+			f, _ := implVerdict(c)
+			fmt.Fprintf(ev.Out, "  on a fresh object: input %d -> %s\n", c.Idx, verdictName(f))
+		} else {
+			impl, pan = implVerdict(c)
+		}
+		close(done)
+	}()
 	select {
 	case <-done:
 	case <-time.After(hangLimit):
@@ -650,7 +676,7 @@ func main() {
 		gen  func(r *ev.Run, p *pool)
 	}
 	fams := []fam{
-		{"b", famB}, {"c", famC}, {"d", famD}, {"e", famE}, {"f", famF}, {"g", famG}, {"h", famH}, {"der", famDER}, {"fad", famFAD}, {"a", famA},
+		{"b", famB}, {"c", famC}, {"d", famD}, {"e", famE}, {"f", famF}, {"g", famG}, {"h", famH}, {"der", famDER}, {"fad", famFAD}, {"pre", famPre}, {"obj", famObj}, {"a", famA},
 	}
 	for _, f := range fams {
 		if !want(f.name) {
